@@ -21,7 +21,7 @@ def pregen(check):
 
 CFG = {
     "id": "C15",
-    "lean_modules": ["GeomV.C15.Proofs", "GeomV.C15.ProofsBlocks", "GeomV.C15.ProofsFloat", "GeomV.C15.ProofsPath", "GeomV.C15.ProofsAnyFit", "GeomV.C15.ProofsNil", "GeomV.C15.ProofsFloatLift", "GeomV.C15.ProofsRne", "GeomV.C15.Ties"],
+    "lean_modules": ["GeomV.C15.Proofs", "GeomV.C15.ProofsBlocks", "GeomV.C15.ProofsFloat", "GeomV.C15.ProofsPath", "GeomV.C15.ProofsAnyFit", "GeomV.C15.ProofsNil", "GeomV.C15.ProofsFloatLift", "GeomV.C15.ProofsRne", "GeomV.C15.ProofsMany", "GeomV.C15.Ties"],
     "pregen": pregen,
     "exe": "geomv_c15",
     "go_cmd": "c15",
@@ -36,6 +36,7 @@ CFG = {
         "C15_tie_Point", "C15_tie_MultiPoint", "C15_tie_LineString", "C15_tie_Bounds",
         "C15_tie_MultiLineString", "C15_tie_Polygon", "C15_tie_MultiPolygon", "C15_tie_GeometryCollection",
         "loops_eq_matchMembers", "removal_in_source",
+        "C15_false_displaced_several", "dispRingSome_false", "dispPtsSome_false",
         "C15_rne_rounding", "C15_float64_lift", "C15_float64_false", "C15_float64_true", "C15_float64_symm",
         "C15_model_eq_spec_blocks", "C15_greedy_iff_perfect_blocks", "C15_false_displaced_copy", "C15_sepRel_block", "C15_perturb_blocks", "C15_false_blocks",
         "C15_blockRel_iff", "C15_any_fit_matcher", "C15_firstFit_is_code", "C15_false_displaced_member_blocks", "C15_false_displaced_anywhere",
